@@ -202,6 +202,9 @@ func vfC05Transfer(sess *vfSession, a vfC05Act, src, base string) string {
 		paths = []string{filepath.Join(src, "big.bin")}
 		cfg.Bufsize = 1024
 	}
+	if a.Outcome == "succeeded" || a.Outcome == "forked" {
+		cfg.Timeout = 10 // nothing here depends on a timeout expiring: on a heavily loaded machine 2 s can expire by itself
+	}
 	run, err := vfStartTransfer(sess, cfg, paths, dest)
 	if err != nil {
 		return "cannot start: " + err.Error()
